@@ -36,6 +36,7 @@ func TestDriveC12(t *testing.T) {
 	spec := FanSpec{Kind: "hwmon", HasRpm: false, HasMode: false, N: 10, Alg: AlgSpec{T: "direct"}}
 	c := NewCtl(rec, spec, 0, 1, 0)
 	defer c.Close()
+	seqRand := rand.New(rand.NewSource(seed*31 + int64(shard)))
 	emit := func(m map[int]int, label string) {
 		mm := map[int]int{}
 		for k, v := range m {
@@ -58,6 +59,34 @@ func TestDriveC12(t *testing.T) {
 			fc = append(fc, util.FindClosest(req, keys))
 		}
 		rec.Emit(Ev{"ev": "Map", "label": label, "map": pairs(m), "keys": keys, "vec": vec, "fc": fc})
+		// a SEQUENCE of requests on the same fan, the register left as the previous request left it (or as a third
+		// party left it: equal to a key, to an output, or arbitrary): whatever the fan currently shows, it must end
+		// up with the nearest supported value of the new request
+		var cand []int
+		for k, v := range m {
+			cand = append(cand, k, v)
+		}
+		sort.Ints(cand)
+		reqs, regs, pokes := []int{}, []int{}, []int{}
+		for i := 0; i < 40; i++ {
+			poke := -1
+			switch seqRand.Intn(4) {
+			case 0:
+				poke = cand[seqRand.Intn(len(cand))]
+				c.Env.Set("pwm", poke)
+			}
+			req := cand[seqRand.Intn(len(cand))]
+			if seqRand.Intn(3) == 0 {
+				req = seqRand.Intn(276) - 10
+			}
+			c.Env.DrainLog()
+			w := -1000
+			if err := c.C.VerifSetPwm(req); err == nil {
+				w = c.Env.Get("pwm")
+			}
+			reqs, regs, pokes = append(reqs, req), append(regs, w), append(pokes, poke)
+		}
+		rec.Emit(Ev{"ev": "Seq", "label": label, "map": pairs(m), "reqs": reqs, "regs": regs, "pokes": pokes})
 	}
 	// exhaustive: all maps over a key universe (incl. adjacent keys, 0 and 255), outputs from 3 values
 	positions := []int{0, 1, 2, 100, 101, 128, 200, 254, 255, 50, 51, 150}[:universe]
